@@ -15,6 +15,7 @@ if len(sys.argv) >= 3 and sys.argv[1] == "note":
 rows, first, later = [], 0, 0
 for f in sorted(glob.glob(os.path.join(ROOT, "seeded", "*", "meta.json"))):
     d = json.load(open(f)); name = f.split("/")[-2]
+    if name.startswith("harmless"): continue
     note = d.get("note")
     import re
     if note and (note.startswith("first run:") or re.search(r"[Ff]irst run: (ESCAPED|only|one model|reported only|NOT CAUGHT|mismatches only)", note)):
